@@ -3,6 +3,7 @@ Local (single-function) facts about the router model used by several property fi
 -/
 import Proofs.Lemmas.Router.Basic
 import Proofs.Lemmas.Router.Assoc
+import Proofs.Lemmas.Router.Rp1_Decomp
 namespace Router
 
 theorem commitAck_spec (s : RState) (id : Nat) (a : Ack) (c : Conn) (h : getConn s id = some c) :
@@ -13,16 +14,6 @@ theorem commitAck_panics_iff (s : RState) (id : Nat) (a : Ack) :
     (∃ e, commitAck s id a = .error e) ↔ getConn s id = none := by
   unfold commitAck
   cases h : getConn s id <;> simp
-
-/-- `handle_disconnection` is total: it never panics, for any id and any state -/
-theorem handleDisconnection_total (s : RState) (id : Nat) (r : Option String) :
-    ∃ s', handleDisconnection s id r = .ok s' := by
-  unfold handleDisconnection
-  cases getConn s id with
-  | none => exact ⟨s, rfl⟩
-  | some c =>
-    simp only []
-    split <;> exact ⟨_, rfl⟩
 
 theorem handleDisconnection_missing (s : RState) (id : Nat) (r : Option String) (h : getConn s id = none) :
     handleDisconnection s id r = .ok s := by
